@@ -81,10 +81,37 @@ func c11Lists() []GOp {
 	return out
 }
 
+// c11UniverseU: names whose bytewise order differs from "looks like" order: 2-, 3- and 4-byte UTF-8
+// sequences (a supplementary-plane character sorts above every BMP character), the largest code
+// point, and a neighbour of the "directory" that sorts between "u/" and "u0".
+var c11UniverseU = []string{"u/a", "u/\u00e9", "u/\uffee", "u/\U0001F600.png", "u/\U0010FFFF", "u/\U0010FFFFz", "u0"}
+
+func c11ListsU() []GOp {
+	var out []GOp
+	for _, p := range []string{"", "u", "u/"} {
+		for _, d := range []string{"", "/", "."} {
+			for _, mx := range []string{"1", "2", "1000", ""} {
+				out = append(out, GOp{Kind: "List", Bucket: "b", Prefix: p, Delim: d, MaxRes: mx})
+			}
+		}
+	}
+	return out
+}
+
 func runC11(c *fw.Ctx) {
-	lists := c11Lists()
-	subsets := subsetsOf(c11Universe)
 	var item int64
+	c11Run(c, &item, c11Universe, c11Lists())
+	c11Run(c, &item, c11UniverseU, c11ListsU())
+	c.Bound("universe", c11Universe)
+	c.Bound("universe_unicode", fmt.Sprintf("%+q", c11UniverseU))
+	c.Bound("list_requests_per_bucket", len(c11Lists()))
+	c.Bound("list_requests_per_bucket_unicode", len(c11ListsU()))
+}
+
+func c11Run(c *fw.Ctx, itemp *int64, universe []string, lists []GOp) {
+	subsets := subsetsOf(universe)
+	item := *itemp
+	defer func() { *itemp = item }()
 	for _, store := range []string{"mem", "file"} {
 		skipped := 0
 		for _, names := range subsets {
@@ -141,8 +168,8 @@ func runC11(c *fw.Ctx) {
 			}
 			w.Close()
 		}
-		c.Bound(store+"_subsets_skipped_not_representable", skipped)
+		if skipped > 0 {
+			c.Bound(store+"_subsets_skipped_not_representable", skipped)
+		}
 	}
-	c.Bound("universe", c11Universe)
-	c.Bound("list_requests_per_bucket", len(lists))
 }
